@@ -202,6 +202,7 @@ func (s *Stage) Scan(version string) (jsonBytes []byte, err error) {
 		func(path string, info os.FileInfo, err error) error {
 			if filepath.Ext(path) == compExt {
 				name = s.pathToName(path, compExt)
+				fileutil.VerifPoint("stage.scan", path)
 				lock = s.getPathLock(strings.TrimSuffix(path, compExt))
 				lock.RLock()
 				// Make sure it still exists.
@@ -240,6 +241,7 @@ func (s *Stage) initStageFile(path string, size int64) error {
 		if cachedState == stateUnknown || cachedState == stateFailed {
 			s.logDebug("Removing Stale Companion:", path+compExt)
 			os.Remove(path + compExt)
+			fileutil.VerifPoint("stage.init.cmpgone", path)
 		}
 	}
 	s.logDebug("Making Directory:", filepath.Dir(path))
@@ -248,6 +250,7 @@ func (s *Stage) initStageFile(path string, size int64) error {
 		return err
 	}
 	fh, err := os.Create(path + partExt)
+	fileutil.VerifPoint("stage.init.created", path)
 	s.logDebug(fmt.Sprintf("Creating Empty File: %s (%d B)", path, size))
 	if err != nil {
 		return fmt.Errorf(
@@ -255,6 +258,7 @@ func (s *Stage) initStageFile(path string, size int64) error {
 			path, partExt, size, err.Error())
 	}
 	defer fh.Close()
+	defer fileutil.VerifPoint("stage.init.done", path)
 	return fh.Truncate(size)
 }
 
@@ -263,6 +267,7 @@ func (s *Stage) initStageFile(path string, size int64) error {
 func (s *Stage) Prepare(parts []sts.Binned) {
 	for _, part := range parts {
 		path := filepath.Join(s.rootDir, part.GetName())
+		fileutil.VerifPoint("stage.prepare", path)
 		lock := s.getPathLock(path)
 		s.logDebug("Preparing:", path)
 		lock.Lock()
@@ -285,6 +290,7 @@ func (s *Stage) Receive(file *sts.Partial, reader io.Reader) (err error) {
 	}
 	part := file.Parts[0]
 	path := filepath.Join(s.rootDir, file.Name)
+	fileutil.VerifPoint("stage.receive.begin", path)
 
 	// Read the part and write it to the right place in the staged "partial"
 	fh, err := os.OpenFile(path+partExt, os.O_WRONLY, 0600)
@@ -293,6 +299,7 @@ func (s *Stage) Receive(file *sts.Partial, reader io.Reader) (err error) {
 			err.Error())
 		return
 	}
+	fileutil.VerifPoint("stage.receive.opened", path)
 	if _, err = fh.Seek(part.Beg, 0); err != nil {
 		return
 	}
@@ -302,6 +309,7 @@ func (s *Stage) Receive(file *sts.Partial, reader io.Reader) (err error) {
 		return
 	}
 
+	fileutil.VerifPoint("stage.receive.written", path)
 	// Make sure we're the only one updating the companion
 	s.logDebug("Receiving part:", file.Source, file.Name, part.Beg, part.End)
 	defer s.logDebug("Received part:", file.Source, file.Name, part.Beg, part.End)
@@ -326,6 +334,7 @@ func (s *Stage) Receive(file *sts.Partial, reader io.Reader) (err error) {
 	}
 
 	s.logDebug("Wrote part:", file.Source, file.Name, part.Beg, part.End)
+	fileutil.VerifPoint("stage.receive.recorded", path)
 
 	done := isCompanionComplete(cmp)
 	if done {
@@ -336,6 +345,7 @@ func (s *Stage) Receive(file *sts.Partial, reader io.Reader) (err error) {
 			existing.hash == final.hash {
 			s.logInfo("Ignoring duplicate (receive):", final.name)
 			os.Remove(path + partExt)
+			fileutil.VerifPoint("stage.receive.dupdiscard", path)
 			if existing.state >= stateFinalized {
 				os.Remove(path + compExt)
 				s.delPathLock(path)
@@ -348,7 +358,9 @@ func (s *Stage) Receive(file *sts.Partial, reader io.Reader) (err error) {
 			s.toCache(final, stateFailed)
 			return
 		}
+		fileutil.VerifPoint("stage.receive.full", path)
 		s.toCache(final, stateReceived)
+		fileutil.VerifPoint("stage.receive.cached", path)
 		s.logDebug("File received:", cmp.Source, cmp.Name)
 		go s.processQueue(final)
 	}
@@ -382,6 +394,7 @@ func (s *Stage) partReceived(part sts.Binned) bool {
 	}
 	s.buildCache(when)
 	beg, end := part.GetSlice()
+	fileutil.VerifPoint("stage.received", filepath.Join(s.rootDir, part.GetName()))
 	path := filepath.Join(s.rootDir, part.GetName())
 	lock := s.getPathLock(path)
 	// s.logDebug("Checking for received part:", path)
@@ -429,6 +442,7 @@ func (s *Stage) partReceived(part sts.Binned) bool {
 // -> sts.ConfirmWaiting: MD5 validation was successful but waiting on predecessor
 // -> sts.ConfirmNone: No knowledge of file
 func (s *Stage) GetFileStatus(relPath string, sent time.Time) int {
+	fileutil.VerifPoint("stage.status", filepath.Join(s.rootDir, relPath))
 	s.logDebug("Stage polled:", sent, relPath)
 	s.buildCache(sent)
 	path := filepath.Join(s.rootDir, relPath)
@@ -476,6 +490,7 @@ func (s *Stage) setCanReceive(value bool) {
 // files in the stage area that should be completed from the previous server
 // run
 func (s *Stage) Recover() {
+	fileutil.VerifPoint("stage.recover.begin", s.rootDir)
 	s.setCanReceive(false)
 	defer s.setCanReceive(true)
 	s.logInfo("Beginning stage recovery")
@@ -516,6 +531,7 @@ func (s *Stage) Recover() {
 							err.Error())
 						return nil
 					}
+					fileutil.VerifPoint("stage.recover.full", base)
 					s.logDebug("Found already done:", cmp.Name)
 					validate = append(validate, cmp)
 				}
@@ -526,6 +542,7 @@ func (s *Stage) Recover() {
 						path, err.Error())
 					return nil
 				}
+				fileutil.VerifPoint("stage.recover.orphan", base)
 				s.logInfo("Removed orphaned companion:", path)
 			} else if isCompanionComplete(cmp) {
 				// No extension (backward compatibility)
@@ -545,8 +562,10 @@ func (s *Stage) Recover() {
 	// Build the cache from the incoming log starting at the time of the oldest
 	// companion file found (or "now" if none exists) minus the cache age. Even
 	// if no files are found on the stage, we still want to build the cache.
+	fileutil.VerifPoint("stage.recover.cache0", s.rootDir)
 	s.logDebug("Stage recovery cache build:", oldest.Add(-1*cacheAgeLogged))
 	s.buildCache(oldest.Add(-1 * cacheAgeLogged))
+	fileutil.VerifPoint("stage.recover.cache1", s.rootDir)
 	if len(validate) == 0 && len(finalize) == 0 {
 		return
 	}
@@ -583,6 +602,7 @@ func (s *Stage) CleanNow() {
 }
 
 func (s *Stage) clean() {
+	fileutil.VerifPoint("stage.clean.begin", s.rootDir)
 	// We only want one cleanup at a time to run
 	s.cleanLock.Lock()
 	defer s.scheduleClean()
@@ -642,6 +662,7 @@ func (s *Stage) pruneTree(dir string, minAge time.Duration) {
 			if err = os.Remove(dir); err != nil {
 				s.logError("Prune: failed to remove [supposedly empty] directory:", dir, err.Error())
 			} else {
+				fileutil.VerifPoint("stage.prune.dir", dir)
 				s.logInfo("Prune: removed empty directory:", dir)
 			}
 		}
@@ -703,6 +724,7 @@ func (s *Stage) cleanStrays(minAge time.Duration) {
 					s.logError("Failed to remove stray partial:", path, err.Error())
 					return nil
 				}
+				fileutil.VerifPoint("stage.stray.part", partPath)
 				s.logInfo("Deleted stray partial:", relPath)
 			}
 			if deleteCmp {
@@ -710,6 +732,7 @@ func (s *Stage) cleanStrays(minAge time.Duration) {
 					s.logError("Failed to remove stray partial companion:", compPath, err.Error())
 					return nil
 				}
+				fileutil.VerifPoint("stage.stray.cmp", compPath)
 				s.logInfo("Deleted stray partial companion:", compPath)
 			}
 			return nil
@@ -806,6 +829,7 @@ func (s *Stage) process(file *finalFile) {
 	// s.logDebug("Validating:", file.name)
 	// defer s.logDebug("Validated:", file.name)
 
+	fileutil.VerifPoint("stage.process.begin", file.path)
 	fileLock := s.getPathLock(file.path)
 	fileLock.Lock()
 	defer fileLock.Unlock()
@@ -828,6 +852,7 @@ func (s *Stage) process(file *finalFile) {
 		return
 	}
 
+	fileutil.VerifPoint("stage.process.hashed", file.path)
 	valid := file.hash == hash
 
 	if !valid {
@@ -845,7 +870,9 @@ func (s *Stage) process(file *finalFile) {
 		return
 	}
 
+	fileutil.VerifPoint("stage.process.wait", file.path)
 	s.toCache(file, stateValidated)
+	fileutil.VerifPoint("stage.process.cached", file.path)
 
 	go s.finalizeQueue(file)
 }
@@ -859,6 +886,7 @@ func (s *Stage) finalizeQueue(file *finalFile) {
 func (s *Stage) finalizeHandler() {
 	defer s.logDebug("Finalize channel done:")
 	for f := range s.finalizeCh {
+		fileutil.VerifPoint("stage.finalize.item", f.path)
 		s.logDebug("Finalize chain:", f.name)
 		if state := s.getFileState(f.path); state != stateValidated {
 			// Skip redundancies or mistakes in the pipe
@@ -1004,6 +1032,7 @@ func (s *Stage) putFileAway(file *finalFile) (targetPath string, err error) {
 	// be no knowledge that the file was received and it would be sent again.
 	s.logger.Received(file)
 	file.logged = time.Now()
+	fileutil.VerifPoint("stage.put.logged", file.path)
 
 	// Move it
 	targetName := file.name
@@ -1014,6 +1043,7 @@ func (s *Stage) putFileAway(file *finalFile) (targetPath string, err error) {
 	if err = os.MkdirAll(filepath.Dir(targetPath), 0775); err != nil {
 		return
 	}
+	fileutil.VerifPoint("stage.put.mkdir", file.path)
 	if err = fileutil.Move(file.path+waitExt, targetPath); err != nil {
 		// If the file doesn't exist then something is really wrong.
 		// Either we somehow have two instances running that are stepping
@@ -1036,10 +1066,12 @@ func (s *Stage) putFileAway(file *finalFile) (targetPath string, err error) {
 
 	// Only change the state once the file has been successfully moved
 	s.toCache(file, stateFinalized)
+	fileutil.VerifPoint("stage.put.final", file.path)
 
 	// Clean up the companion (no need to capture an error since it wouldn't
 	// be a deal-breaker anyway)
 	os.Remove(file.path + compExt)
+	fileutil.VerifPoint("stage.put.cmpgone", file.path)
 	return
 }
 
